@@ -47,18 +47,22 @@ theorem old_stage {f : Forest} {po : Nat} {vo : Value} {l : List HTree} {t : HTr
         simp [ha, htt] at this
     exact OldOutcome.merged l' a b r' x y hc rfl rfl hx hy hp hn ht
 
-/-- The forest after the old-site merge: still distinct handles, `t` still a child of `po`. -/
+/-- The forest after the old-site merge: still distinct handles, `t` still a child of `po`;
+    lookups of anything that is not one of the merged text nodes are unchanged. -/
 theorem OldOutcome.site {f : Forest} {po : Nat} {vo : Value} {l : List HTree} {t : HTree} {r : List HTree}
-    {res : Forest × Bool} (h : OldOutcome f po l t r res) (so : SiteAt f po vo (l ++ t :: r)) :
+    {res : Forest × Bool} (h : OldOutcome f po l t r res) (so : SiteAt f po vo (l ++ t :: r))
+    (hleaf : ∀ k ∈ l ++ t :: r, k.value.isText = true → k.kids = []) :
     ∃ l1 r1, SiteAt res.1 po vo (l1 ++ t :: r1) ∧ res.1 = f.editAt (some po) (fun _ => l1 ++ t :: r1) ∧
-      (handlesList (l1 ++ r1)).Sublist (handlesList (l ++ r)) := by
+      (handlesList (l1 ++ r1)).Sublist (handlesList (l ++ r)) ∧
+      (∀ x, (∀ k ∈ l ++ r, k.value.isText = true → k.handle ≠ x) →
+        findList? x l1 = findList? x l ∧ findList? x r1 = findList? x r) := by
   cases h with
   | same _ =>
-    refine ⟨l, r, so, ?_, List.Sublist.refl _⟩
+    refine ⟨l, r, so, ?_, List.Sublist.refl _, fun _ _ => ⟨rfl, rfl⟩⟩
     rw [so.congr (g := fun _ => l ++ t :: r) (g' := id) rfl, Forest.editAt_id]
   | merged l' a b r' x y hc el er hx hy hp hn ht =>
     subst el er
-    refine ⟨l' ++ [a.setValue (.text (x ++ y))], r', ?_, ?_, ?_⟩
+    refine ⟨l' ++ [a.setValue (.text (x ++ y))], r', ?_, ?_, ?_, ?_⟩
     · have := so.edit (fun _ => l' ++ a.setValue (.text (x ++ y)) :: t :: r') (by
         simp only [handlesList_append, handlesList_cons, setValue_handles, handlesList_nil, List.append_nil,
           List.append_assoc]
@@ -70,6 +74,21 @@ theorem OldOutcome.site {f : Forest} {po : Nat} {vo : Value} {l : List HTree} {t
         List.append_assoc]
       refine (List.Sublist.refl _).append ((List.Sublist.refl _).append ?_)
       exact List.sublist_append_right _ _
+    · intro z hz
+      have hza : a.handle ≠ z := hz a (by simp) (by rw [hx]; rfl)
+      have hzb : b.handle ≠ z := hz b (by simp) (by rw [hy]; rfl)
+      have hbleaf : b.kids = [] := hleaf b (by simp) (by rw [hy]; rfl)
+      constructor
+      · rw [findList?_append, findList?_append, findList?_cons, findList?_cons, find?_setValue _ hza]
+      · have : find? z b = none := by
+          cases b with
+          | node bh bv bks =>
+            simp only [HTree.kids] at hbleaf
+            simp only [HTree.handle] at hzb
+            subst hbleaf
+            rw [find?_node, if_neg hzb, findList?_nil]
+        rw [findList?_cons, this]
+        rfl
 
 /-- After the old-site merge, cutting the node gives what the specification's cut followed by
     its merge at the old site gives. -/
